@@ -411,6 +411,11 @@ def build(spec, dirpath, write_params=True):
         T.pcf = rs.randn(nrows, 3, p['nloc']).astype(p['dtype'])       # stored (rows, npc, nloc)
         if p.get('zero_positive'):
             T.pcf[0, 0, :] = -np.abs(T.pcf[0, 0, :])     # positive part of the first PC vanishes
+        if p.get('nonfinite'):
+            # stored values are what they are: NaN / inf included (the file is memory-mapped)
+            T.pcf[1 % nrows, 0, 0] = np.nan
+            T.pcf[0, 1, -1] = np.inf
+            T.pcf[nrows - 1, 2, 0] = -np.inf
         T.pcf_ind = np.array(p['ind'], dtype=p['ind_dtype'])
         np.save(d / 'pc_features.npy', T.pcf)
         np.save(d / 'pc_feature_ind.npy', T.pcf_ind)
@@ -422,6 +427,10 @@ def build(spec, dirpath, write_params=True):
         p = spec['tf']
         nrows = ns if p['rows'] is None else len(p['rows'])
         T.tf = rs.randn(nrows, p['nloc']).astype(p['dtype'])
+        if p.get('nonfinite'):
+            T.tf[1 % nrows, 0] = np.nan
+            T.tf[0, -1] = np.inf
+            T.tf[nrows - 1, 0] = -np.inf
         T.tf_ind = np.array(p['ind'], dtype=p['ind_dtype'])
         np.save(d / 'template_features.npy', T.tf)
         np.save(d / 'template_feature_ind.npy', T.tf_ind)
